@@ -193,7 +193,11 @@ func (c *Conn) close(reset bool) error {
 		p.n.onClose(c, reset)
 	}
 	p.mu.Lock()
-	close(p.gone[c.side])
+	select {
+	case <-p.gone[c.side]: // teardown got there first
+	default:
+		close(p.gone[c.side])
+	}
 	if reset {
 		h := &p.h[1-c.side]
 		h.rst, h.buf = true, nil
